@@ -27,12 +27,20 @@ pub fn shard_fill(nf: usize, k: usize, kk: usize) -> usize {
 
 pub fn run<T: W>(group: &str, r: usize, c: usize, fs: FillSet, shard: (usize, usize), seed: u64) {
     let fi = shard_fill(n_fills(r, c, fs), shard.0, shard.1);
-    let a = fill(fi, r, c, fs, seed).round::<T>();
+    let a = fill_t::<T>(fi, r, c, fs, seed);
     let d: DenseMatrix<T> = build(&a);
+    // adjacent floats (round 7): the alphabet [x, next_up(x), next_down(x)] of the fill's centre
+    let adj: Option<[f64; 3]> = match fs {
+        FillSet::Adjacent { sigma_max } => {
+            mc::count("adjacent_unary_matrix");
+            Some(adj_alphabet::<T>(adj_split(fi, r * c, sigma_max).0, seed))
+        }
+        _ => None,
+    };
     let op = match group {
         "struct" => structural::<T>(&a, &d, fi, fs),
-        "elem" => elementwise::<T>(&a, &d, fi, fs),
-        "reduce" => reduce::<T>(&a, &d, fi, fs),
+        "elem" => elementwise::<T>(&a, &d, fi, fs, adj),
+        "reduce" => reduce::<T>(&a, &d, fi, fs, adj.is_some()),
         g => panic!("unknown group {}", g),
     };
     mc::nontrivial();
@@ -289,9 +297,22 @@ fn structural<T: W>(a: &M, d: &DenseMatrix<T>, fi: usize, fs: FillSet) -> String
 const SCALARS: [f64; 4] = [2.0, -3.0, 0.5, 0.0];
 const POWERS: [f64; 6] = [2.0, 3.0, 0.5, -1.0, 0.0, 1.0];
 
-fn elementwise<T: W>(a: &M, d: &DenseMatrix<T>, fi: usize, fs: FillSet) -> String {
+/// `steps` > 0: the value `steps` ulps above `x` in the width; < 0: below.
+pub fn ulps<T: W>(x: f64, steps: i32) -> f64 {
+    let mut y = x;
+    for _ in 0..steps.abs() {
+        y = if steps > 0 { T::next_up(y) } else { T::next_down(y) };
+    }
+    y
+}
+
+fn elementwise<T: W>(a: &M, d: &DenseMatrix<T>, fi: usize, fs: FillSet, adj: Option<[f64; 3]>) -> String {
     const OPS: &[&str] = &["scalar", "elem_mut", "neg_abs", "pow", "binarize", "eq_self"];
-    let op = OPS[mc::choose(OPS.len())];
+    // adjacent floats: the operations in which a tolerance could stand in for an exact comparison,
+    // plus the correctly rounded element-wise arithmetic (pow depends on libm, not on adjacency)
+    const ADJ_OPS: &[&str] = &["scalar", "elem_mut", "neg_abs", "binarize", "eq_adjacent"];
+    let ops = if adj.is_some() { ADJ_OPS } else { OPS };
+    let op = ops[mc::choose(ops.len())];
     let (r, c) = (a.r, a.c);
     let sc = shape_class(r, c);
     match op {
@@ -374,9 +395,17 @@ fn elementwise<T: W>(a: &M, d: &DenseMatrix<T>, fi: usize, fs: FillSet) -> Strin
             return format!("pow({})", p);
         }
         "binarize" => {
-            let thr = [0.0, a.v[0], -5.5][mc::choose(3)];
+            // adjacent floats: the threshold is the middle value x (strict >: next_up(x) -> 1, x -> 0,
+            // next_down(x) -> 0), and also each neighbour of x
+            let thr = match adj {
+                Some(al) => al[mc::choose(3)],
+                None => [0.0, a.v[0], -5.5][mc::choose(3)],
+            };
             let want = a.map(|x| if x > thr { 1.0 } else { 0.0 });
-            let w = desc::<T>(a, fi, fs, format!(" threshold {}", thr));
+            if adj.is_some() && want.v.iter().any(|x| *x == 1.0) && a.v.iter().any(|x| *x == thr) {
+                mc::count("adjacent_binarize_split_at_threshold");
+            }
+            let w = desc::<T>(a, fi, fs, format!(" threshold {:e}", thr));
             let tt: T = t(thr);
             both("dense.binarize", "dense.binarize_mut", sign_class(&a.v), &w, a, d, &want, None, |m| m.binarize(tt), |m| m.binarize_mut(tt));
             return format!("binarize({})", thr);
@@ -407,6 +436,60 @@ fn elementwise<T: W>(a: &M, d: &DenseMatrix<T>, fi: usize, fs: FillSet) -> Strin
                 }
             }
         }
+        "eq_adjacent" => {
+            // equal to an identical copy; a copy with ONE entry moved by one or two ulps:
+            // * `==` — DenseMatrix::eq is implemented with the absolute tolerance T::epsilon()
+            //   (|a-b| > eps <=> unequal). That is taken as given: only pairs that are identical or
+            //   differ by MORE than eps are judged (the rest is counted, not flagged);
+            // * approximate_eq(error) is the formula max|a-b| <= error, judged exactly (the difference
+            //   of two neighbouring floats is computed without rounding): error = 0, the difference
+            //   itself, and its predecessor;
+            // * max_diff returns the difference exactly.
+            let w = desc::<T>(a, fi, fs, " against an identical copy".into());
+            let copy: DenseMatrix<T> = build(a);
+            expect_eq(&Cx { op: "dense.eq", class: sc, what: &w }, mc::guard(|| *d == copy), true);
+            expect_eq(&Cx { op: "dense.approximate_eq", class: sc, what: &w }, mc::guard(|| d.approximate_eq(&copy, t(0.0))), true);
+            expect_s::<T>(&Cx { op: "dense.max_diff", class: sc, what: &w }, mc::guard(|| d.max_diff(&copy)), 0.0, 0.0);
+            // moved entry: every position; for the structured single-deviant assignments of the larger
+            // shapes (one entry p already differs from x) the positions 0, p-1, p, p+1 and the last one
+            let n = r * c;
+            let dev = match fs {
+                FillSet::Adjacent { sigma_max } => adj_single_deviant(fi, n, sigma_max),
+                _ => None,
+            };
+            let moved: Vec<usize> = match dev {
+                None => (0..n).collect(),
+                Some(p) => {
+                    let mut v = vec![0, (p + n - 1) % n, p, (p + 1) % n, n - 1];
+                    v.sort_unstable();
+                    v.dedup();
+                    v
+                }
+            };
+            for k in moved {
+                for steps in [1, -1, 2, -2] {
+                    let mut b = a.clone();
+                    b.v[k] = ulps::<T>(a.v[k], steps);
+                    let diff = (b.v[k] - a.v[k]).abs();
+                    assert!(diff > 0.0 && rt::<T>(diff) == diff);
+                    let bd: DenseMatrix<T> = build(&b);
+                    let w = desc::<T>(a, fi, fs, format!(" against a copy with entry ({},{}) moved by {} ulp(s) to {:e} (difference {:e}, machine epsilon {:e})", k / c, k % c, steps, b.v[k], diff, T::EPS));
+                    if diff > T::EPS {
+                        mc::count("adjacent_eq_beyond_library_tolerance");
+                        expect_eq(&Cx { op: "dense.eq", class: sc, what: &w }, mc::guard(|| *d == bd), false);
+                        expect_eq(&Cx { op: "dense.eq", class: sc, what: &w }, mc::guard(|| bd == *d), false);
+                    } else {
+                        mc::count("adjacent_eq_within_library_tolerance");
+                    }
+                    for err in [0.0, diff, T::next_down(diff)] {
+                        let w = desc::<T>(a, fi, fs, format!(" against a copy with entry ({},{}) moved by {} ulp(s) to {:e} (difference {:e}), error {:e}", k / c, k % c, steps, b.v[k], diff, err));
+                        expect_eq(&Cx { op: "dense.approximate_eq", class: sc, what: &w }, mc::guard(|| d.approximate_eq(&bd, t(err))), diff <= err);
+                        expect_eq(&Cx { op: "dense.approximate_eq", class: sc, what: &w }, mc::guard(|| bd.approximate_eq(d, t(err))), diff <= err);
+                    }
+                    expect_s::<T>(&Cx { op: "dense.max_diff", class: sc, what: &w }, mc::guard(|| d.max_diff(&bd)), diff, 0.0);
+                }
+            }
+        }
         _ => unreachable!(),
     }
     op.to_string()
@@ -424,7 +507,8 @@ pub fn axis_stats<T: W>(a: &M, axis: u8) -> (Vec<Vec<f64>>, [Vec<f64>; 3], [Vec<
         let n = l.len();
         let (m, v) = (mean_of(l), var_of(l).max(0.0));
         want[0].push(m);
-        tol[0].push(4.0 * n as f64 * T::EPS * sum_abs(l) / n as f64);
+        // + SUB: the division may round in the subnormal range (absolute error <= SUB/2 < 1e-44)
+        tol[0].push(4.0 * n as f64 * T::EPS * sum_abs(l) / n as f64 + T::SUB);
         want[1].push(v);
         tol[1].push(var_tol::<T>(n, m, v));
         want[2].push(v.sqrt());
@@ -433,9 +517,19 @@ pub fn axis_stats<T: W>(a: &M, axis: u8) -> (Vec<Vec<f64>>, [Vec<f64>; 3], [Vec<
     (lanes, want, tol)
 }
 
-fn reduce<T: W>(a: &M, d: &DenseMatrix<T>, fi: usize, fs: FillSet) -> String {
+fn reduce<T: W>(a: &M, d: &DenseMatrix<T>, fi: usize, fs: FillSet, adj: bool) -> String {
     const OPS: &[&str] = &["sum_max_min", "norms", "column_mean", "mean_var_std", "scale", "argmax", "unique", "cov", "softmax"];
-    let op = OPS[mc::choose(OPS.len())];
+    // adjacent floats: exact selections (max, min, argmax, unique, the infinite norms) and the means;
+    // var / std / cov / softmax / finite norms of values 1 ulp apart lie outside the quantifier
+    // (|mean| / spread ~ 1/eps) or are libm-bound and say nothing about adjacency
+    const ADJ_OPS: &[&str] = &["sum_max_min", "norms", "column_mean", "mean_var_std", "argmax", "unique"];
+    let ops = if adj { ADJ_OPS } else { OPS };
+    let op = ops[mc::choose(ops.len())];
+    let mut srt = a.v.clone();
+    srt.sort_by(|x, y| x.partial_cmp(y).unwrap());
+    srt.dedup();
+    // at least two distinct values, all within two ulps of each other
+    let adj_distinct = adj && srt.len() >= 2;
     let (r, c) = (a.r, a.c);
     let sc = shape_class(r, c);
     let sg = sign_class(&a.v);
@@ -452,9 +546,13 @@ fn reduce<T: W>(a: &M, d: &DenseMatrix<T>, fi: usize, fs: FillSet) -> String {
             if sg == "all-negative" {
                 mc::count("reduce_all_negative");
             }
+            if adj_distinct {
+                mc::count("adjacent_max_min_distinct_neighbours");
+            }
         }
         "norms" => {
-            let pi = mc::choose(NORM_PS.len() + 1);
+            // adjacent floats: the two infinite norms only (exact selections of max |x| / min |x|)
+            let pi = if adj { 4 + mc::choose(2) } else { mc::choose(NORM_PS.len() + 1) };
             if pi == NORM_PS.len() {
                 let want = a.v.iter().map(|x| x * x).sum::<f64>().sqrt();
                 expect_s::<T>(&Cx { op: "dense.norm2", class: sg, what: &w0 }, mc::guard(|| d.norm2()), want, 8.0 * (n + 2.0) * T::EPS * want);
@@ -475,6 +573,9 @@ fn reduce<T: W>(a: &M, d: &DenseMatrix<T>, fi: usize, fs: FillSet) -> String {
             let (_, want, tol) = axis_stats::<T>(a, axis);
             let w = desc::<T>(a, fi, fs, format!(" axis {}", axis));
             expect_v::<T>(&Cx { op: "stats.mean", class: sc, what: &w }, mc::guard(|| d.mean(axis)), &want[0], Some(&tol[0]));
+            if adj {
+                return format!("mean(axis {})", axis);
+            }
             // variance / std: judged lane by lane so that the class reflects the failing lane
             for (which, name) in [(1usize, "stats.var"), (2, "stats.std")] {
                 let got = mc::guard(|| if which == 1 { d.var(axis) } else { d.std(axis) });
@@ -532,6 +633,9 @@ fn reduce<T: W>(a: &M, d: &DenseMatrix<T>, fi: usize, fs: FillSet) -> String {
                             if ties > 1 {
                                 mc::count("argmax_tie");
                             }
+                            if adj && row.iter().any(|x| *x != mx) {
+                                mc::count("adjacent_argmax_runner_up_within_2ulp");
+                            }
                             // ties are resolved in the library's favour: any maximiser is accepted
                             if g[i] >= c || row[g[i]] != mx {
                                 let cls = sign_class(&row);
@@ -549,6 +653,9 @@ fn reduce<T: W>(a: &M, d: &DenseMatrix<T>, fi: usize, fs: FillSet) -> String {
             let cls = if want.len() < a.v.len() { "with-duplicates" } else { "all-distinct" };
             if want.len() < a.v.len() {
                 mc::count("unique_with_duplicates");
+            }
+            if adj_distinct {
+                mc::count("adjacent_unique_distinct_neighbours");
             }
             expect_v::<T>(&Cx { op: "dense.unique", class: cls, what: &w0 }, mc::guard(|| d.unique()), &want, None);
         }
